@@ -34,6 +34,7 @@ from .validation import (
     validate_string,
     validate_array,
     validate_nn_distances,
+    validate_normalize_per_time_point,
 )
 
 
@@ -299,7 +300,9 @@ class TimeSensitiveDensityEstimator(BaseEstimator):
             ls_time_factor, "ls_time_factor", allow_inf=True
         )
         self._save_intermediate_ls_times = _save_intermediate_ls_times
-        self.normalize_per_time_point = normalize_per_time_point
+        self.normalize_per_time_point = validate_normalize_per_time_point(
+            normalize_per_time_point
+        )
         self.transform = None
         self.loss_func = None
         self.opt_state = None
